@@ -73,9 +73,14 @@ impl Path {
             is_abs(p.path_spec()) ==> r == p.path_spec(),
             !is_abs(p.path_spec()) ==> comps(r) == comps(*self) + join_tail(*self, p.path_spec()),
             !is_abs(p.path_spec()) ==> forall|i: int| 0 <= i < join_tail(*self, p.path_spec()).len() ==> comps(p.path_spec()).contains(#[trigger] join_tail(*self, p.path_spec())[i]),
-            // derived clause (lemma_join_within proves it from the two clauses above; stated here so that
-            // extracted bodies need no in-body hint)
+            // the tail is the argument itself when it has no `.` component
+            (!is_abs(p.path_spec()) && forall|i: int| 0 <= i < comps(p.path_spec()).len() ==> !(#[trigger] comps(p.path_spec())[i] is CurDir)) ==> join_tail(*self, p.path_spec()) == comps(p.path_spec()),
+            // joining a relative path onto an absolute one gives an absolute path
+            (is_abs(*self) && !is_abs(p.path_spec())) ==> is_abs(r),
+            // derived clauses (lemma_join_within / lemma_join_within_base prove them from the clauses above; stated
+            // here so that extracted bodies need no in-body hint)
             (!is_abs(p.path_spec()) && clean(comps(p.path_spec()))) ==> within(r, *self),
+            forall|base: Path| (#[trigger] within(*self, base) && !is_abs(p.path_spec()) && clean(comps(p.path_spec()))) ==> within(r, base),
     { unimplemented!() }
     #[verifier::external_body]
     pub fn strip_prefix<P: AsPath>(&self, base: P) -> (r: Result<&Path, StripPrefixError>)
@@ -101,5 +106,43 @@ pub proof fn lemma_join_within(base: Path, q: Path, r: Path)
         assert(comps(q)[j] is Normal || comps(q)[j] is CurDir);
     }
     assert(clean(t));
+}
+
+// within is transitive (tails concatenate)
+pub proof fn lemma_within_trans(a: Path, b: Path, c: Path)
+    requires within(a, b), within(b, c),
+    ensures within(a, c),
+{
+    let t1 = choose|t: Seq<Component>| #![auto] comps(a) == comps(b) + t && clean(t);
+    let t2 = choose|t: Seq<Component>| #![auto] comps(b) == comps(c) + t && clean(t);
+    assert(comps(a) =~= comps(c) + (t2 + t1));
+    assert(clean(t2 + t1)) by {
+        assert forall|i: int| 0 <= i < (t2 + t1).len() implies (#[trigger] (t2 + t1)[i] is Normal || (t2 + t1)[i] is CurDir) by {
+            if i < t2.len() { assert((t2 + t1)[i] == t2[i]); } else { assert((t2 + t1)[i] == t1[i - t2.len()]); }
+        }
+    }
+}
+// checked justification of join's second derived clause
+pub proof fn lemma_join_within_base(selfp: Path, q: Path, r: Path, base: Path)
+    requires
+        comps(r) == comps(selfp) + join_tail(selfp, q),
+        forall|i: int| 0 <= i < join_tail(selfp, q).len() ==> comps(q).contains(#[trigger] join_tail(selfp, q)[i]),
+        clean(comps(q)), within(selfp, base),
+    ensures within(r, base),
+{
+    lemma_join_within(selfp, q, r);
+    lemma_within_trans(r, selfp, base);
+}
+// dropping the last component of a path strictly longer than its base stays within the base
+pub proof fn lemma_within_parent(p: Path, q: Path, base: Path)
+    requires within(p, base), comps(q) == comps(p).drop_last(), comps(p).len() > comps(base).len(),
+    ensures within(q, base),
+{
+    let t = choose|t: Seq<Component>| #![auto] comps(p) == comps(base) + t && clean(t);
+    assert(t.len() > 0);
+    assert(comps(q) =~= comps(base) + t.drop_last());
+    assert(clean(t.drop_last())) by {
+        assert forall|i: int| 0 <= i < t.drop_last().len() implies (#[trigger] t.drop_last()[i] is Normal || t.drop_last()[i] is CurDir) by { assert(t.drop_last()[i] == t[i]); }
+    }
 }
 } // verus!
